@@ -313,8 +313,10 @@ def main(run):
         cases.append({"part": "stress", "seed": run.seed * 1000 + i, "threads": 8, "iterations": run.n(6, 12), "inputs": ins})
     hist_cases = []
     pool_steps = [(k, {"src": s, "op": None}) for k, s in pdfs + others]
-    pool_steps += [(k, {"src": s, "op": "truncate", "family": "byte", "mseed": 7}) for k, s in (pdfs[:3] + others[:4])]
-    pool_steps += [(k, {"src": s, "op": "bitflip", "family": "byte", "mseed": 11}) for k, s in (pdfs[:3] + others[:4])]
+    # failing / damaged inputs of every kind in the pool (archives included: a failure half-way through unpacking must clean up too)
+    for op, ms in (("truncate", 7), ("bitflip", 11), ("zero", 13), ("truncate_tail", 17), ("numbers", 19)):
+        pool_steps += [(k, {"src": s, "op": op, "family": "byte", "mseed": ms}) for k, s in (pdfs[:3] + others)]
+    pool_steps += [("zip", {"src": s, "op": op, "family": "byte", "mseed": ms}) for s in sources.get("zip", []) for op, ms in (("zero", 23), ("bitflip", 29), ("numbers", 31), ("truncate_tail", 37))]
     for i in range(run.n(20, 300)):
         steps = [rng.choice(pool_steps) for _ in range(rng.randint(6, 20))]
         hist_cases.append({"part": "history", "steps": steps, "id": i})
